@@ -88,6 +88,32 @@ class Ambiguous(object):
 
 # ------------------------------------------------------------------ value codec
 
+EXACT_FLOATS = [0]
+
+
+class exact_floats:
+    """While a run is fed with bit-exact float items (tag 'fl'), every float it emits is
+    recorded bit-exactly as well: two executions are then compared to the last bit (such
+    values are opaque for the specification: equality only)."""
+
+    def __init__(self, encoded):
+        self.on = _has_fl(encoded)
+
+    def __enter__(self):
+        EXACT_FLOATS[0] += self.on
+
+    def __exit__(self, *exc):
+        EXACT_FLOATS[0] -= self.on
+
+
+def _has_fl(x):
+    if isinstance(x, dict):
+        return any(_has_fl(v) for v in x.values())
+    if isinstance(x, (list, tuple)):
+        return (len(x) == 2 and x[0] == 'fl' and isinstance(x[1], str)) or any(_has_fl(v) for v in x)
+    return False
+
+
 def enc(v):
     """python value -> tagged JSON value [tag, payload] (a snapshot: nothing is shared
     with v); becomes the TLA+ tuple <<tag, payload>>"""
@@ -100,6 +126,8 @@ def enc(v):
             return ['f', repr(v)]
         return ['i', v]
     if isinstance(v, float):
+        if EXACT_FLOATS[0] and v == v and v not in (float('inf'), float('-inf')) and v != int(v):
+            return ['fl', v.hex()]      # bit-exact (an opaque value for the specification)
         if v != v:
             return ['nan']
         if v in (float('inf'), float('-inf')):
@@ -144,6 +172,8 @@ def dec(d):
         return [dec(x) for x in d[1]]
     if k == 'q':
         return Fraction(d[1], d[2])
+    if k == 'fl':
+        return float.fromhex(d[1])
     if k == 'o':
         return Ambiguous.of(d[1])
     if k == 'nan':
@@ -714,8 +744,13 @@ def _push(src, ev):
         src.on_next(rs.OnErrorMux(key, VerifError(ev.get('code', 9))))
 
 
-def run_mux(pipe, events, timescale=None, taps='all', dl_late=False, share_ops=False, warmup=None,
-            store_split=None, feedback=None, reapply=False):
+def run_mux(pipe, events, *a, **kw):
+    with exact_floats(events):
+        return _run_mux(pipe, events, *a, **kw)
+
+
+def _run_mux(pipe, events, timescale=None, taps='all', dl_late=False, share_ops=False, warmup=None,
+             store_split=None, feedback=None, reapply=False, warmup_completes=False):
     """Push mux events directly on a MuxObservable (as the repository's own tests do).
     events: [{'t':'c'|'n'|'d', 'k':[idx], 'v':value}] ; the source completes at the end
     unless the last event is {'t':'open'}."""
@@ -726,6 +761,17 @@ def run_mux(pipe, events, timescale=None, taps='all', dl_late=False, share_ops=F
     ctx = {'routers': [], 'timescale': timescale, 'taps': taps, 'share_ops': share_ops}
     ops = build(pipe, rec, [], ctx)
     src = Subject()
+    resub_completed = bool(warmup) and warmup_completes and not reapply and not ctx['routers']
+    if resub_completed:
+        # the piped observable is subscribed, runs to completion, and is subscribed again (a
+        # second pass, retry / repeat): a cold source that hands a fresh Subject to every
+        # subscription
+        feeds = []
+
+        def _fresh(scheduler=None):
+            feeds.append(Subject())
+            return feeds[-1]
+        src = rx.defer(_fresh)
     store = rs.state.StoreManager(store_factory=rs.state.MemoryStore)
     if store_split and 0 < store_split < len(pipe):
         # two store sections chained on one multiplexed stream, each with a store manager of
@@ -766,6 +812,18 @@ def run_mux(pipe, events, timescale=None, taps='all', dl_late=False, share_ops=F
                     for ev in warmup:
                         _push(src0, ev)
                     src0.on_completed()
+                elif resub_completed:
+                    obs.subscribe(on_next=lambda i: None, on_error=lambda e: None)
+                    open_keys = []
+                    for ev in warmup:
+                        _push(feeds[-1], ev)
+                        if ev['t'] == 'c':
+                            open_keys.append(ev['k'][0])
+                        elif ev['t'] in ('d', 'e') and ev['k'][0] in open_keys:
+                            open_keys.remove(ev['k'][0])
+                    for k in open_keys:          # a well-formed source: every key is completed
+                        feeds[-1].on_next(rs.OnCompletedMux((k,)))
+                    feeds[-1].on_completed()
                 else:
                     d0 = obs.subscribe(on_next=lambda i: None, on_error=lambda e: None)
                     for ev in warmup:
@@ -803,6 +861,8 @@ def run_mux(pipe, events, timescale=None, taps='all', dl_late=False, share_ops=F
             if feedback == 'end' and type(i) is rs.OnNextMux and cur[0] == 'n':
                 push_nested()
         obs.subscribe(on_next=on_next, on_error=on_error, on_completed=on_completed)
+        if resub_completed:
+            src = feeds[-1]          # (the closures above push into the feed of this subscription)
         if dl_late:      # the dead-letter observable is subscribed after the data pipeline
             _subscribe_routers(rec, ctx)
         try:
@@ -1163,7 +1223,12 @@ def run_plain_tee(tee, items):
     return logs, out
 
 
-def run_plain(pipe, items, complete=True, share_ops=False, feedback=False, reapply=None, behind_store=False):
+def run_plain(pipe, items, *a, **kw):
+    with exact_floats(items):
+        return _run_plain(pipe, items, *a, **kw)
+
+
+def _run_plain(pipe, items, complete=True, share_ops=False, feedback=False, reapply=None, behind_store=False):
     """The plain (non multiplexed) code path of the same pipeline: items of one group
     as an ordinary observable.  Returns outputs with the number of source items pushed
     when each was emitted, and how the stream ended."""
